@@ -279,6 +279,9 @@ func (t Table) DDL(style Style) []string {
 		d := ""
 		if fk.Name != "" {
 			d = "CONSTRAINT " + q(style, fk.Name) + " "
+			if style == StyleNative { // keywords are case-insensitive; people write them in lower case too
+				d = "constraint " + q(style, fk.Name) + " "
+			}
 		}
 		if fk.Short && style == StyleNative {
 			d += "FOREIGN KEY (" + qs(style, fk.Cols) + ") REFERENCES " + q(style, refName(style, fk)) + actions(fk)
@@ -294,6 +297,9 @@ func (t Table) DDL(style Style) []string {
 		d := ""
 		if c.Name != "" {
 			d = "CONSTRAINT " + q(style, c.Name) + " "
+			if style == StyleNative {
+				d = "constraint " + q(style, c.Name) + " "
+			}
 		}
 		defs = append(defs, d+"CHECK ("+c.Expr+")")
 	}
